@@ -723,9 +723,9 @@ class Sccp:
         return b not in self.exec_blocks
 
 
-def seed_after_call(fn, call, value, call_model=None, stop_blocks=(), removed_edges=()):
+def seed_after_call(fn, call, value, call_model=None, stop_blocks=(), removed_edges=(), field_model=None):
     """Run SCCP assuming `call` just returned `value`."""
-    s = Sccp(fn, call_model=call_model, stop_blocks=stop_blocks, removed_edges=removed_edges)
+    s = Sccp(fn, call_model=call_model, stop_blocks=stop_blocks, removed_edges=removed_edges, field_model=field_model)
     if call.target is None:
         return s
     env = {}
